@@ -219,6 +219,8 @@ const STR_ATOMS: &[&str] = &[
     "hello", " ", "  ", "world", "\"quoted\"", "(comment-looking)", "it's", "rock'n'roll", ",", ".", "!", "?", "ünï", "çödé", "日本", "🎸", "5", "3.14",
     "say", "put x into y", "'s", "'n'", "\t", "ab1", "x_", "_", "-", "+", "&", "<=", "\"\"", "()", "\"a(b\"", "(a\"b)", "else", "says", "\\", "`", "1e3", ";",
     "\"", "(", ")",
+    // typographic quotes and control characters are ordinary text
+    "„Halt!“ rief er", "6“ nails", "“", "‘quoted’", "”“", "\u{1b}[2J", "\u{9b}x",
 ];
 
 pub fn string_text(t: &mut Tape) -> String {
